@@ -62,6 +62,9 @@ func keyName(i int) []byte {
 	case 5:
 		return []byte{0xff, 0x80, 0x01}
 	}
+	if i >= 20 {
+		return []byte(fmt.Sprintf("k%04d", i)) // large-population histories
+	}
 	return []byte{byte('a' + i)}
 }
 
@@ -188,6 +191,31 @@ func (comp) Gen(prop string, rng *rand.Rand, tier string) *core.History {
 // Exhaustive: one chunk, three keys, every sequence of a fixed length over a small op alphabet
 // (every shorter sequence is a prefix of one of them and is checked after each op).
 func (comp) Exhaustive(prop string, tier string, yield func(*core.History)) {
+	// LARGE-POPULATION histories (beyond the small scope): one ImmunizeKeys / ImmunizeTxsAgainstEviction call with more than 512 keys
+	// (a block's worth), all of them added, then enough other items to force evictions: every immunized item must stay. A threshold or
+	// batch boundary inside the immunisation path shows here and nowhere else.
+	for kind := 0; kind < 2; kind++ {
+		nImm, nOther := 520, 24
+		if tier == "thorough" {
+			nImm, nOther = 1100, 60
+		}
+		first := 20 // keyName(i) for i >= 20 is "k%04d"
+		h := &core.History{}
+		h.SetConfig(core.N(uint64(kind)), core.N(1), core.N(uint64(nImm+8)), core.N(1<<30), core.N(3), universeTok(first+nImm+nOther))
+		var imm []string
+		for j := 0; j < nImm; j++ {
+			imm = append(imm, core.B(keyName(first+j)))
+		}
+		h.Add(opImmunize, fmt.Sprintf("immunize %d keys in one call", nImm), core.L(imm...))
+		for j := 0; j < nImm; j++ {
+			h.Add(opHasOrAdd, "", core.B(keyName(first+j)), core.B([]byte{byte(j >> 8), byte(j)}), core.I(2))
+		}
+		for j := 0; j < nOther; j++ {
+			h.Add(opHasOrAdd, "", core.B(keyName(first+nImm+j)), core.B([]byte{0xee, byte(j)}), core.I(2))
+		}
+		h.Add(opGet, "", core.B(keyName(first+511)))
+		yield(h)
+	}
 	type xop struct {
 		code int
 		key  int
@@ -302,7 +330,7 @@ func newCrossTxCache(nc, mi, mb, ev uint32) (*api, error) {
 		return nil, err
 	}
 	wrap := func(k, p []byte, size int) *txcache.WrappedTransaction {
-		return &txcache.WrappedTransaction{Tx: &transaction.Transaction{Data: p}, TxHash: k, Size: int64(size)}
+		return &txcache.WrappedTransaction{Tx: &transaction.Transaction{Data: p}, TxHash: append([]byte{}, k...), Size: int64(size)} // the transaction owns its hash
 	}
 	unwrap := func(v interface{}, ok bool) ([]byte, bool) {
 		if !ok {
@@ -461,6 +489,7 @@ func (comp) Run(h *core.History, scratch string) *core.Result {
 	}
 
 	for i, op := range h.Ops {
+		res.Scribble() // the key buffers handed to the previous call are reused by their caller
 		a := op.Parsed()
 		var toks []string
 		before := m.present
@@ -473,10 +502,10 @@ func (comp) Run(h *core.History, scratch string) *core.Result {
 			_, wasPresent := before[ks]
 			var has, added bool
 			if op.Code == opHasOrAdd {
-				has, added = c.hasOrAdd(k, p, size)
+				has, added = c.hasOrAdd(res.CallerKey(k), p, size)
 				toks = append(toks, core.Lbl(1, core.Bool(has)), core.Lbl(2, core.Bool(added)))
 			} else {
-				ev := c.put(k, p, size)
+				ev := c.put(res.CallerKey(k), p, size)
 				toks = append(toks, core.Lbl(3, core.Bool(ev)))
 			}
 			nowP, nowPresent := c.get(k)
@@ -566,7 +595,7 @@ func (comp) Run(h *core.History, scratch string) *core.Result {
 		case opImmunize:
 			var keys [][]byte
 			for _, x := range a[0].List {
-				keys = append(keys, x.Bytes())
+				keys = append(keys, res.CallerKey(x.Bytes()))
 			}
 			now, fut, hasRes := c.immunize(keys)
 			if hasRes {
